@@ -192,6 +192,7 @@ type sched struct {
 	abortFrom  *thread
 	keepKeys   bool
 	startPoint bool
+	skipYield  []string
 }
 
 // g is the active execution (nil: none). Only the goroutine holding the baton touches it.
@@ -231,6 +232,9 @@ type Options struct {
 	// and a thread whose first operation is Lock on a held mutex is correctly seen as not enabled).
 	StartPoint bool
 	StateKeys  bool // collect control-state keys
+	// SkipYield: explicit Yield sites starting with one of these prefixes are not scheduling points in this
+	// execution (used to leave out the "call <Pool>.<Method>" points where the pool traffic is not shared).
+	SkipYield []string
 }
 
 func mix(h, v uint64) uint64 {
@@ -259,7 +263,7 @@ func Run(o Options, bodies ...func()) *Exec {
 		panic("vsched: Run in pass-through mode")
 	}
 	s := &sched{prefix: o.Prefix, expect: o.Expect, gran: o.Gran, maxSteps: o.MaxSteps, ex: &Exec{},
-		startCh: make(chan struct{}), doneCh: make(chan struct{}, 1), ackCh: make(chan struct{}), keepKeys: o.StateKeys, startPoint: o.StartPoint}
+		startCh: make(chan struct{}), doneCh: make(chan struct{}, 1), ackCh: make(chan struct{}), keepKeys: o.StateKeys, startPoint: o.StartPoint, skipYield: o.SkipYield}
 	if s.maxSteps == 0 {
 		s.maxSteps = 2_000_000
 	}
@@ -526,6 +530,11 @@ func live() *sched {
 // Yield is an explicit scheduling point (all granularities).
 func Yield(site string) {
 	if s := live(); s != nil {
+		for _, p := range s.skipYield {
+			if len(site) >= len(p) && site[:len(p)] == p {
+				return
+			}
+		}
 		s.point(pending{kind: opYield, site: site})
 	}
 }
